@@ -138,8 +138,8 @@ def run_forks(ctx, cfg, epochs=(100, 2), timeout=3000):
 CASPER_CFGS = {
     "quick": [("cfg/CasperGen.n1.quick.cfg", 1, 0, 1), ("cfg/CasperGen.n3me.quick.cfg", 3, 0, 1),
               ("cfg/CasperGen.n3ext.quick.cfg", 3, 99, 4), ("cfg/CasperGen.deep.cfg", 4, 0, 1, 12, 90)],
-    "thorough": [("cfg/CasperGen.n1.thorough.cfg", 1, 0, 1), ("cfg/CasperGen.n3me.thorough.cfg", 3, 0, 1),
-                 ("cfg/CasperGen.n3ext.thorough.cfg", 3, 99, 1), ("cfg/CasperGen.n4byz.thorough.cfg", 4, 99, 1),
+    "thorough": [("cfg/CasperGen.n1.thorough.cfg", 1, 0, 1), ("cfg/CasperGen.n3me.thorough.cfg", 3, 0, 4),
+                 ("cfg/CasperGen.n3ext.quick.cfg", 3, 99, 1), ("cfg/CasperGen.n4byz.thorough.cfg", 4, 99, 64),
                  ("cfg/CasperGen.deep.cfg", 4, 0, 1, 400, 90)],
 }
 
@@ -172,22 +172,24 @@ def run_casper(ctx, timeout=6000):
 
 # ledger family: (cfg, stride quick) per tier
 LEDGER_CFGS = {
-    "quick": [("cfg/LedgerGen.quick.cfg", 8), ("cfg/LedgerGen.pool.quick.cfg", 4), ("cfg/LedgerGen.vote.quick.cfg", 24), ("cfg/LedgerGen.contract.quick.cfg", 96)],
+    "quick": [("cfg/LedgerGen.quick.cfg", 8), ("cfg/LedgerGen.pool.quick.cfg", 4), ("cfg/LedgerGen.vote.quick.cfg", 24), ("cfg/LedgerGen.contract.quick.cfg", 96), ("cfg/LedgerGen.rules.quick.cfg", 2)],
     "thorough": [("cfg/LedgerGen.quick.cfg", 1), ("cfg/LedgerGen.pool.quick.cfg", 1), ("cfg/LedgerGen.vote.quick.cfg", 1),
-                 ("cfg/LedgerGen.thorough.cfg", 8), ("cfg/LedgerGen.contract.quick.cfg", 4)],
+                 ("cfg/LedgerGen.thorough.cfg", 32), ("cfg/LedgerGen.contract.quick.cfg", 4), ("cfg/LedgerGen.rules.quick.cfg", 1)],
 }
 
 
 PROPOSE_CFGS = {
     "quick": [("cfg/LedgerGen.pool.quick.cfg", 3), ("cfg/LedgerGen.quick.cfg", 24)],
-    "thorough": [("cfg/LedgerGen.pool.quick.cfg", 1), ("cfg/LedgerGen.quick.cfg", 2), ("cfg/LedgerGen.thorough.cfg", 16)],
+    "thorough": [("cfg/LedgerGen.pool.quick.cfg", 1), ("cfg/LedgerGen.quick.cfg", 2), ("cfg/LedgerGen.thorough.cfg", 64)],
 }
 
 
-def run_ledger(ctx, timeout=6000, mode="replay"):
+def run_ledger(ctx, timeout=6000, mode="replay", only=None):
     b = ctx.build("ledger")
     out = dict(tlc=[], cases=0, calls=0, distinct=0, samples=[], other=0, states=0, transitions=0, configs=[])
     for cfg, stride in (LEDGER_CFGS if mode == "replay" else PROPOSE_CFGS)[ctx.tier]:
+        if only and not any(o in cfg for o in only):
+            continue
         r = tlc_cached(ctx, "chain/LedgerGen", cfg, timeout=timeout, tag="ledger", workers=NCPU)
         h = replay_cached(ctx, b, [str(stride)], r.path, timeout=timeout, verb=mode)
         s = h["summary"]
